@@ -100,13 +100,16 @@ class Tx(ast.NodeTransformer):
         return n
 
     def visit_IfExp(self, n):
+        # arms are merged into one term only when evaluating both cannot have an effect (no calls, walrus, yield)
+        pure = not any(isinstance(x, (ast.Call, ast.NamedExpr, ast.Yield, ast.YieldFrom, ast.Await))
+                       for arm in (n.body, n.orelse) for x in ast.walk(arm))
         self.generic_visit(n)
 
         def lam(b):
             return ast.Lambda(args=ast.arguments(posonlyargs=[], args=[], kwonlyargs=[], kw_defaults=[],
                                                  defaults=[]), body=b)
         return ast.copy_location(
-            ast.Call(func=ast.Name("__sx_ifexp__", ast.Load()), args=[n.test, lam(n.body), lam(n.orelse)],
+            ast.Call(func=ast.Name("__sx_ifexp__", ast.Load()), args=[n.test, lam(n.body), lam(n.orelse), ast.Constant(pure)],
                      keywords=[]), n)
 
     def visit_JoinedStr(self, n):
@@ -1217,9 +1220,11 @@ def _contains(item, cont):
     return item in cont
 
 
-def __sx_ifexp__(t, fa, fb):
+def __sx_ifexp__(t, fa, fb, pure=False):
     if isinstance(t, SxInt):
         t = (t != 0)
+    if isinstance(t, SxBool) and not pure:
+        return fa() if bool(t) else fb()
     if isinstance(t, SxBool):
         # merge only when both arms are side-effect-free integers; evaluating both arms of the
         # repository's conditional expressions is safe because arms that raise are re-run under a fork
